@@ -11,6 +11,7 @@ import os
 from .. import core
 
 NAMES = ["a", "A", "b", "B", "c", "C"]
+LATIN = [["é", "É", "b", "B", "ä", "Ä"], ["café", "CAFÉ", "Café", "cafe", "CAFE", "cafÉ"], ["ñu", "ÑU", "nu", "Ñu", "øl", "ØL"]]
 KIND = {"g": "lookup", "w": "lookup-with-parent", "s": "own-scope-lookup", "a": "all-matches",
         "t": "iteration-order", "c": "merged-listing"}
 
@@ -45,6 +46,20 @@ def gen_cases(ctx):
         ops.append("Q")
         cases.append("sym %d %s %s" % (n, ",".join(NAMES), " ".join(ops)))
         ctx.count("random n=%d" % n)
+    # names with non-ASCII letters: `to_uppercase` is the Unicode one, and every function must fold the same way
+    for _ in range(nrand // 5):
+        n = 1 + ctx.rng.below(3)
+        names = ctx.rng.choice(LATIN)
+        ops = []
+        for _ in range(3 + ctx.rng.below(12)):
+            if ctx.rng.chance(1, 5):
+                ops.append("Q")
+            else:
+                ops.append("i%d:%s" % (ctx.rng.below(n), ctx.rng.choice(names)))
+        ops.append("Q")
+        cases.append("sym %d %s %s" % (n, ",".join(names), " ".join(ops)))
+        ctx.count("random non-ASCII names n=%d" % n)
+    nrand += nrand // 5
     return cases, ncorpus, nexh, nrand
 
 
@@ -52,7 +67,7 @@ def run(ctx):
     ctx.trusted += [
         "Lean 4.33 kernel + leanchecker; axioms ⊆ {propext, Classical.choice, Quot.sound}",
         "hand-written model lean/GoldModel/Model/SymTab.lean, tied to src/analyzers_v2/symbol_table.rs by the `sym` correspondence only",
-        "std HashMap modelled as a finite map (association list); str::to_uppercase as an arbitrary function `norm` (ASCII upper-casing in executable runs)",
+        "std HashMap modelled as a finite map (association list); str::to_uppercase as an arbitrary function `norm` (ASCII + Latin-1 letter upper-casing in executable runs)",
         "harness/src/modes/sym.rs (drives the real SymbolTable through the ISymbolTable trait), lean_exe compilation of the driver",
     ]
     ctx.assumptions += [
